@@ -15,7 +15,7 @@ import (
 func init() {
 	register(&Spec{ID: "C13", Title: "Cancelled or closed channels never block and never deliver", Run: runC13,
 		Meta: core.Meta{
-			Explanation: "Structural conditions of non-blocking behaviour; durations are not decided. R13.1: every blocking receive on Channel.packageCh, Channel.errCh or Conn.errCh is a select that also receives from Done() of the caller's context and of the connection context, each branch returning an error that wraps the respective Err() with %w; plain receives occur only after close() of the same channel (the drain in Close). R13.2 (E-LOCK, blocking-under-lock): every send on those channels is examined — a bare send (no select with an escape) executed while the channel's RWMutex is held blocks Close (which needs the write lock); a bare send on Conn.errCh parks the reader goroutine beyond Conn.Close. Bare sends on the reader goroutine's path (functions statically reachable from (*Conn).ReadFrom) are reported as one obligation per queue, bare sends anywhere else one per function. R13.3: every *Channel method that touches the queues or Go channels tests `closed` under the channel lock first (closed edge returns ErrChannelClosed or returns without effect); Close sets closed under the write lock, removes the channel from the connection, and closes both Go channels before draining them. R13.4: in sendPackets every sendPacket call lies in the default arm of a non-blocking select over the caller's and the connection's Done(). R13.5: every path through Conn.Close calls ctxCancel() and conn.Close() and closes the snapshot of channels; Logout bounds its waits with context.WithTimeout. R13.6: the reader loop tests the connection context at its head with an exit and passes that context to Packet.ReadFrom. R13.7 (E-LOCK): no call (including deferred calls, replayed LIFO at each exit) re-acquires a sync.RWMutex the caller already holds — recursive read locking deadlocks against a pending writer. R13.9 (E-LOCK): wherever Conn.tdsChannelsLock is held (read or write) no channel send, blocking receive/select or call that transitively contains one is executed — a reader parked on one channel's full queue would otherwise hold the connection-wide lock that Close and NewChannel of every other channel need. R13.2 also covers every other send in package tds: it is accepted only as the single send on a buffered channel made by the same call (NextPackage's no-wait slot). R13.8: in every *Channel method with a ctx parameter, every context argument passed on derives from that parameter.",
+			Explanation: "Structural conditions of non-blocking behaviour; durations are not decided. R13.1: every blocking receive on Channel.packageCh, Channel.errCh or Conn.errCh is a select that also receives from Done() of the caller's context and of the connection context, each branch returning an error that wraps the respective Err() with %w; plain receives occur only after close() of the same channel (the drain in Close). R13.2 (E-LOCK, blocking-under-lock): every send on those channels is examined — a bare send (no select with an escape) executed while the channel's RWMutex is held blocks Close (which needs the write lock); a bare send on Conn.errCh parks the reader goroutine beyond Conn.Close. Bare sends on the reader goroutine's path (functions statically reachable from (*Conn).ReadFrom) are reported as one obligation per queue, bare sends anywhere else one per function. R13.3: every *Channel method that touches the queues or Go channels tests `closed` under the channel lock first (closed edge returns ErrChannelClosed or returns without effect); Close sets closed under the write lock, removes the channel from the connection, and closes both Go channels before draining them. R13.4: in sendPackets every sendPacket call lies in the default arm of a non-blocking select over the caller's and the connection's Done(). R13.5: every path through Conn.Close calls ctxCancel() and conn.Close() and closes the snapshot of channels; Logout bounds its waits with context.WithTimeout. R13.6: the reader loop tests the connection context at its head with an exit and passes that context to Packet.ReadFrom. R13.7 (E-LOCK): no call (including deferred calls, replayed LIFO at each exit) re-acquires a sync.RWMutex the caller already holds — recursive read locking deadlocks against a pending writer. R13.9 (E-LOCK): wherever Conn.tdsChannelsLock is held (read or write) no channel send, blocking receive/select or call that transitively contains one is executed — a reader parked on one channel's full queue would otherwise hold the connection-wide lock that Close and NewChannel of every other channel need. R13.2 also covers every other send in package tds: it is accepted only as the single send on a buffered channel made by the same call (NextPackage's no-wait slot). R13.10: no branch condition in package tds is computed from len() or cap() of a Go channel. R13.8: in every *Channel method with a ctx parameter, every context argument passed on derives from that parameter.",
 			NotDecided:  "Latencies, goroutine counts and races between cancel and delivery are not decided; schedules are not explored.",
 			Assumptions: []string{"sync.RWMutex blocks new readers behind a pending writer (documented)", "select semantics of the Go specification"},
 		}})
@@ -34,6 +34,8 @@ func runC13(r *core.Run) {
 	r.Rule("R13.8", "context arguments derive from the caller's ctx", 7, true)
 	r.Rule("R13.9", "the connection's channel-map lock is never held across an operation that can block on a queue", 1, false)
 	defer c13NoBlockUnderMapLock(r, la)
+	r.Rule("R13.10", "no control decision on len()/cap() of a Go channel", 1, false)
+	defer c13NoLenOfChan(r, la)
 
 	designated := map[*types.Var]string{
 		p.Field("tds", "Channel", "packageCh"): "Channel.packageCh",
@@ -728,4 +730,52 @@ func readerPathFuncs(p *core.Prog) map[*ssa.Function]bool {
 	}
 	mark(p.Func("tds", "Conn", "ReadFrom"))
 	return readerPath
+}
+
+// c13NoLenOfChan: R13.10. No control decision in package tds is taken on len() or cap() of a Go channel: the answer
+// is stale the moment it is read (the reader goroutine fills the queue concurrently), and skipping a step of Close or
+// of a receive because the queue "is empty"/"is not empty" makes the bounded-time and closed-condition guarantees
+// depend on the fill level.
+func c13NoLenOfChan(r *core.Run, la *lockAnalysis) {
+	n := 0
+	var dep func(v ssa.Value, d int) ssa.Value
+	dep = func(v ssa.Value, d int) ssa.Value {
+		if d > 4 || v == nil {
+			return nil
+		}
+		switch x := v.(type) {
+		case *ssa.Call:
+			if bi, ok := x.Call.Value.(*ssa.Builtin); ok && (bi.Name() == "len" || bi.Name() == "cap") {
+				if _, isChan := x.Call.Args[0].Type().Underlying().(*types.Chan); isChan {
+					return x
+				}
+			}
+		case *ssa.BinOp:
+			if t := dep(x.X, d+1); t != nil {
+				return t
+			}
+			return dep(x.Y, d+1)
+		case *ssa.UnOp:
+			return dep(x.X, d+1)
+		case *ssa.Convert:
+			return dep(x.X, d+1)
+		}
+		return nil
+	}
+	for _, fn := range la.funcs {
+		for _, b := range fn.Blocks {
+			if len(b.Instrs) == 0 {
+				continue
+			}
+			iff, ok := b.Instrs[len(b.Instrs)-1].(*ssa.If)
+			if !ok {
+				continue
+			}
+			n++
+			if t := dep(iff.Cond, 0); t != nil {
+				r.Bad("R13.10", core.FuncName(fn)+": branch on "+core.KExpr(t), t.Pos(), "a branch is taken on "+core.Expr(t)+": the fill level of a queue that another goroutine writes decides whether a step (e.g. the logout that also frees a blocked reader) is performed, so Close can hang or a receive can misreport depending on how many packages happen to be queued")
+			}
+		}
+	}
+	r.Check(n > 0, "R13.10", "no branch on the fill level of a Go channel", token.NoPos, fmt.Sprintf("%d branches in package tds inspected", n), "no branches seen")
 }
